@@ -163,14 +163,14 @@ func (sc *Scenario) Main(o Options) int {
 		}()
 		select {
 		case <-finished:
-		case <-time.After(120 * time.Second):
+		case <-time.After(time.Duration(5*HangPolls(o.Thorough)) * time.Second):
 			if site := stuckInLibrary(); site != "" {
 				path := sc.writeHangReplay(o.Seed, uint64(i), o.Thorough, site)
-				fmt.Printf("VIOLATION property=%s replay=%s\n  signature: %s/does-not-return/%s\n  detail: run %d of seed %d has been executing library code for 120s without returning (innermost library frame: %s)\n",
-					sc.ID, path, sc.ID, site, i, o.Seed, site)
+				fmt.Printf("VIOLATION property=%s replay=%s\n  signature: %s/does-not-return/%s\n  detail: run %d of seed %d has been executing library code for %ds without returning (innermost library frame: %s)\n",
+					sc.ID, path, sc.ID, site, i, o.Seed, 5*HangPolls(o.Thorough), site)
 				return 1
 			}
-			fmt.Fprintf(os.Stderr, "WATCHDOG: %s run %d (seed %d) did not finish within 120s and is not inside library code: harness trouble (exit 2)\n", sc.ID, i, o.Seed)
+			fmt.Fprintf(os.Stderr, "WATCHDOG: %s run %d (seed %d) did not finish within %ds and is not inside library code: harness trouble (exit 2)\n", sc.ID, i, o.Seed, 5*HangPolls(o.Thorough))
 			return 2
 		}
 		sa, sb := "", ""
@@ -332,13 +332,13 @@ func (sc *Scenario) replay(o Options, known *KnownFile) int {
 	}()
 	select {
 	case <-done:
-	case <-time.After(120 * time.Second):
+	case <-time.After(time.Duration(5*HangPolls(rp.Tier == "thorough")) * time.Second):
 		if site := stuckInLibrary(); site != "" {
-			fmt.Printf("  signature: %s/does-not-return/%s\n  detail: the replayed run has been executing library code for 120s without returning\n", sc.ID, site)
+			fmt.Printf("  signature: %s/does-not-return/%s\n  detail: the replayed run has been executing library code for %ds without returning\n", sc.ID, site, 5*HangPolls(rp.Tier == "thorough"))
 			fmt.Printf("VIOLATION property=%s replay=%s\n", sc.ID, o.Replay)
 			return 1
 		}
-		fmt.Fprintln(os.Stderr, "replay did not finish within 120s and is not inside library code: harness trouble")
+		fmt.Fprintln(os.Stderr, "replay did not finish in time and is not inside library code: harness trouble")
 		return 2
 	}
 	for _, l := range c.trace {
